@@ -127,7 +127,7 @@ def oracle(ctx: Ctx, res) -> None:
 
 
 def run(ctx: Ctx) -> None:
-    n = 150 if ctx.quick else 4000
+    n = 700 if ctx.quick else 7000
     good = oc.crawl_and_compare(ctx, n, 1 if ctx.quick else 2)
     for res in good:
         t = res["truth"]
